@@ -3,7 +3,7 @@
 patch=$1; id=$2; tier=${3:-quick}
 cd /repo || exit 2
 if ! git diff --quiet; then echo "repo dirty"; exit 2; fi
-git apply "$patch" || { echo "APPLY-FAILED"; exit 2; }
+git apply "$patch" 2>/dev/null || git apply -C1 "$patch" || { echo "APPLY-FAILED"; exit 2; }
 cd /verif && VERIF_NO_EVIDENCE=1 ./check $id --tier $tier > /tmp/tryseed.$$.log 2>&1; rc=$?
 cd /repo && git checkout -- . && git clean -fdq -- tars contrib 2>/dev/null
 grep -c '^VIOLATION' /tmp/tryseed.$$.log | sed "s/^/violations: /"
